@@ -210,6 +210,29 @@ pub fn roundtrip_case(l: &mut Local, prop_site: &str, p: &Pkt, var: Variant) {
             }
             if observe::same_observation(&o, &expected) {
                 l.hit("round-trip-equal");
+                // the same bytes taken as a datagram: a compound of this one packet must be accepted and hand
+                // out this packet, then end
+                l.transitions += 1;
+                let via = guard::catch(|| -> Result<(), String> {
+                    let mut c = rtcp_types::Compound::parse(&bytes).map_err(|e| format!("Compound::parse = {:?}", e))?;
+                    let first = c.next().ok_or("the compound yields nothing")?.map_err(|e| format!("the compound yields {:?}", e))?;
+                    let mut o2 = observe::obs_packet(&first, bytes.len()).map_err(|e| format!("{:?}", e))?;
+                    if let Pkt::Fb { fci: Fci::Fir(v), .. } = &mut o2 {
+                        v.sort();
+                    }
+                    if !observe::same_observation(&o2, &expected) {
+                        return Err(format!("through the compound iteration the packet reads {}", o2.short()));
+                    }
+                    if c.next().is_some() {
+                        return Err("the compound yields a second item".into());
+                    }
+                    Ok(())
+                });
+                match via {
+                    Err(pi) => l.subject_panic(&format!("{}:parse-as-compound:{}", prop_site, name), &pi, || format!("{} -> {}", p.short(), hex_short(&bytes))),
+                    Ok(Err(m)) => l.violation(format!("{}:{}:not-the-same-through-Compound::parse", prop_site, name), || format!("{} -> {}", p.short(), hex_short(&bytes)), || m),
+                    Ok(Ok(())) => {}
+                }
             } else {
                 let f = diff_field(&o, &expected);
                 l.violation(
@@ -379,4 +402,111 @@ where
         v.push(crate::engine::run::fp_debug(&x));
     }
     v
+}
+
+/// Iterator call histories on every iterator reachable from `bytes`: the compound iteration itself and, for every
+/// packet it (or `Packet::parse`) yields, report_blocks / chunks / items / ssrcs / the FCI iterators of the packet's
+/// own FCI type. Returns the number of iterators driven.
+pub fn all_iterator_histories(l: &mut Local, bytes: &[u8], depth: u32) -> usize {
+    use rtcp_types::*;
+    let show = || hex_short(bytes);
+    let mut n = 0usize;
+    let cap = 17 * bytes.len() + 8;
+    fn packet_iters(l: &mut Local, p: &Packet, depth: u32, cap: usize, show: &dyn Fn() -> String) -> usize {
+        let mut n = 0;
+        match p {
+            Packet::Sr(sr) => {
+                let r = iterator_reference(sr.report_blocks(), cap);
+                iterator_histories(l, "SenderReport::report_blocks", &|| sr.report_blocks(), &r, depth, show);
+                n += 1;
+            }
+            Packet::Rr(rr) => {
+                let r = iterator_reference(rr.report_blocks(), cap);
+                iterator_histories(l, "ReceiverReport::report_blocks", &|| rr.report_blocks(), &r, depth, show);
+                n += 1;
+            }
+            Packet::Sdes(sd) => {
+                let r = iterator_reference(sd.chunks(), cap);
+                iterator_histories(l, "Sdes::chunks", &|| sd.chunks(), &r, depth, show);
+                n += 1;
+                for c in sd.chunks().take(cap) {
+                    let r = iterator_reference(c.items(), cap);
+                    iterator_histories(l, "SdesChunk::items", &|| c.items(), &r, depth, show);
+                    n += 1;
+                }
+            }
+            Packet::Bye(b) => {
+                let r = iterator_reference(b.ssrcs(), cap);
+                iterator_histories(l, "Bye::ssrcs", &|| b.ssrcs(), &r, depth, show);
+                n += 1;
+            }
+            Packet::TransportFeedback(t) => {
+                if let Ok(x) = t.parse_fci::<Nack>() {
+                    let r = iterator_reference(x.entries(), cap);
+                    iterator_histories(l, "Nack::entries", &|| x.entries(), &r, depth, show);
+                    n += 1;
+                }
+            }
+            Packet::PayloadFeedback(t) => {
+                if let Ok(x) = t.parse_fci::<Fir>() {
+                    let r = iterator_reference(x.entries(), cap);
+                    iterator_histories(l, "Fir::entries", &|| x.entries(), &r, depth, show);
+                    n += 1;
+                }
+                if let Ok(x) = t.parse_fci::<Sli>() {
+                    let r = iterator_reference(x.lost_macroblocks(), cap);
+                    iterator_histories(l, "Sli::lost_macroblocks", &|| x.lost_macroblocks(), &r, depth, show);
+                    n += 1;
+                }
+            }
+            _ => {}
+        }
+        n
+    }
+    let r = guard::catch(|| {
+        let mut n = 0usize;
+        if let Ok(c) = Compound::parse(bytes) {
+            let reference = iterator_reference(c, bytes.len() / 4 + 3);
+            iterator_histories(l, "Compound", &|| Compound::parse(bytes).expect("parsed a moment ago"), &reference, depth, &show);
+            n += 1;
+            if let Ok(c) = Compound::parse(bytes) {
+                for p in c.take(bytes.len() / 4 + 3).flatten() {
+                    n += packet_iters(l, &p, depth, cap, &show);
+                }
+            }
+        } else if let Ok(p) = Packet::parse(bytes) {
+            n += packet_iters(l, &p, depth, cap, &show);
+        }
+        n
+    });
+    match r {
+        Err(pi) => l.subject_panic("iterator-history", &pi, show),
+        Ok(k) => n += k,
+    }
+    n
+}
+
+
+/// Iterator call histories on the parsed form of ~`per_space` built packets of each configuration space (a stride
+/// through the space): the round-trip properties speak of "the same blocks / chunks / entries in the same order",
+/// which must hold however the iterators are driven.
+pub fn roundtrip_iterator_histories(ctx: &mut Ctx, spaces: Vec<CfgSpace>, per_space: u64, depth: u32) {
+    ctx.bound("iterator histories", format!("about {} built packets per configuration space: every iterator of the parsed packet driven through all call sequences of length <= {} over {{next, nth(0), nth(1), nth(2), nth(7), take(2).count()}} x 4 endings", per_space, depth));
+    for sp in spaces {
+        let stride = (sp.len / per_space).max(1);
+        let n = sp.len / stride;
+        let get = &sp.get;
+        ctx.run_space(&format!("iterator-histories:{}", sp.name), n, |idx, l| {
+            let p = get(idx * stride);
+            l.evals += 1;
+            if crate::refmodel::wire::encoded_len(&p) > 2048 {
+                l.hit("(large packet: iterator histories skipped)");
+                return;
+            }
+            if let Some(Built::Bytes(b)) = build_bytes(l, "roundtrip", &p, Variant::PLAIN) {
+                l.sample(|| format!("iterator histories on the built {}", p.short()));
+                all_iterator_histories(l, &b, depth);
+            }
+        });
+    }
 }
